@@ -133,6 +133,8 @@ class TokenStream:
 
         ret_val = self._head_token
         self._start_pos = self._source_io.tell()
+        if self._lexer.state is None:
+            self._lexer = self._new_lexer()
         try:
             s = self._lexer.get_token()
         except ValueError as ex:
